@@ -12,7 +12,7 @@
    before every one of its requests.  [C : cfg] carries no_opendir and the VFS inode-conversion
    closure, so the same theorems cover directories listed through the VFS. *)
 From Coq Require Import List NArith Bool.
-From FB Require Import Model.Readdir Proofs.Readdir Proofs.ReaddirStep Proofs.ReaddirListing Proofs.ReaddirInst.
+From FB Require Import Model.Readdir Proofs.Readdir Proofs.ReaddirStep Proofs.ReaddirListing Proofs.ReaddirInst Proofs.ReaddirScan Proofs.ReaddirFallback.
 Import ListNotations.
 Local Open Scope N_scope.
 
@@ -103,6 +103,32 @@ Theorem C16_fallback_segment_partial : forall d size c fuel pre rest found b n,
   exists p s, d = p ++ b ++ s /\ n = (length p + length b)%nat.
 Proof. exact scan_segment. Qed.
 
+(* ... and, at the level of the scan loop: when every record fits the buffer, the scan started at the
+   beginning of the directory returns a prefix (non-empty if anything remains) of the records right
+   after the requested cookie, leaving the fd right after that prefix.  (Not lifted to the listing
+   theorems, which assume a seekable host; the remainder of the cookie's batch may hold only dots.) *)
+Theorem C16_fallback_scan_partial : forall fuel (pre r1 : list hent) e r2 size c,
+  (length (r1 ++ e :: r2) < fuel)%nat ->
+  h_off e = c -> ~ In c (map h_off r1) ->
+  all_fit size (r1 ++ e :: r2) ->
+  exists b s, scan fuel (r1 ++ e :: r2) size c false (length pre)
+              = (ROk b, (length pre + length r1 + 1 + length b)%nat) /\
+              r2 = b ++ s /\ (r2 <> [] -> b <> []).
+Proof. exact scan_found. Qed.
+
+(* Safety on ANY host whose lseek either works or answers EINVAL (cookies above i64::MAX included):
+   resuming goes through the cache hit, lseek or the linear-scan fallback, and for sizes that hold every
+   host record the client always has a prefix of the remaining visible entries. *)
+Theorem C16_resume_safety_any_host : forall plan H C pre rest st off plus replies,
+  good_dir (pre ++ rest) -> seek_recoverable H -> lookups_ok H (pre ++ rest) ->
+  wrap_total (c_wrap C) -> InvSt (pre ++ rest) st ->
+  (c_noopendir C = false -> forall m, In m plan -> hs_open (st_h st (ms_handle m)) = true) ->
+  (forall m, In m plan -> ms_size m = 0 \/ all_fit (ms_size m) (pre ++ rest)) ->
+  off_at pre off ->
+  listing H C (pre ++ rest) st off plus plan = map ROk replies ->
+  exists s, map (mkd H (c_wrap C) plus) (visible rest) = concat replies ++ s.
+Proof. exact listing_prefix_any_host. Qed.
+
 (* PseudoFs (index offsets), also when reached through the VFS *)
 Theorem C16_pseudo_exactly_once : forall sizes pre rest plus,
   N.of_nat (length (pre ++ rest)) < U64_MAX ->
@@ -126,6 +152,20 @@ Example C16_nonvacuous :
 Proof.
   exact (conj w_good (conj w_seekable (conj w_lookups (conj w_inv (conj w_plan_ok_holds w_listing_value))))).
 Qed.
+(* a host where no cookie can be lseek'ed to: cookies above i64::MAX; the listing goes through the
+   fallback scan (32-byte replies, one entry each) and is complete *)
+Definition nfs_dir : list hent :=
+  [mk_hent [97] 11 9223372036854775813 8; mk_hent [46] 10 7 4; mk_hent [98] 12 9223372036854775817 8].
+Definition nfs_host : host := mk_host (fun _ => 0%nat) (fun c => if c =? 0 then 0 else EINVAL) (fun _ => ROk (7, 11)).
+Example C16_fallback_nonvacuous :
+  seek_recoverable nfs_host /\
+  listing nfs_host w_cfg nfs_dir (init_state [1]) 0 false
+          [mk_mstep [] 1 56; mk_mstep [] 1 80; mk_mstep [] 1 80]
+  = [ROk [mk_dirent 7 9223372036854775813 8 [97] 0]; ROk [mk_dirent 7 9223372036854775817 8 [98] 0]; ROk []].
+Proof.
+  split; [split; [reflexivity|intros c; cbn; destruct (c =? 0); auto]|vm_compute; reflexivity].
+Qed.
+
 Example C16_pseudo_nonvacuous :
   psizes_ok ([] ++ [([97], 5); ([98; 99], 6)]) false 0 [32; 32; 32] /\
   plisting [([97], 5); ([98; 99], 6)] false 0 [32; 32; 32]
@@ -142,5 +182,7 @@ Print Assumptions C16_cache_invariant.
 Print Assumptions C16_cookie_cache_sound.
 Print Assumptions C16_plus_refs.
 Print Assumptions C16_fallback_segment_partial.
+Print Assumptions C16_fallback_scan_partial.
+Print Assumptions C16_resume_safety_any_host.
 Print Assumptions C16_pseudo_exactly_once.
 Print Assumptions C16_pseudo_size_respected.
